@@ -375,24 +375,62 @@ float32_t igris_atof32(const char *str, char **pend)
     char *end;
     unsigned int u = igris_atou32(str, 10, &end);
 
+    float ret = (float)u;
+
     str = end;
     if (*str == '.')
     {
         int64_t d = igris_atou64(++str, 10, &end);
-        if (pend)
-            *pend = end;
-
-        float ret = (float)u + (float)((double)d /
-                                       (double)local_pow(10, (int)(end - str)));
-        return minus ? -ret : ret;
+        ret = (float)u + (float)((double)d /
+                                 (double)local_pow(10, (int)(end - str)));
+        str = end;
     }
 
-    else
+    if (*str == 'E' || *str == 'e')
     {
-        if (pend)
-            *pend = end;
-        return minus ? -(float)u : (float)u;
+        const char *eptr = str + 1;
+        int e_sign = 1;
+        int e_val = 0;
+
+        if (*eptr == '+')
+        {
+            eptr++;
+        }
+        else if (*eptr == '-')
+        {
+            eptr++;
+            e_sign = -1;
+        }
+
+        // an exponent has at least one digit, otherwise the 'e' is not part
+        // of the number
+        if (*eptr >= '0' && *eptr <= '9')
+        {
+            while ((*eptr >= '0' && *eptr <= '9'))
+            {
+                // saturate: beyond this the result is 0 or inf anyway
+                if (e_val < 100000)
+                    e_val = e_val * 10 + (*eptr - '0');
+                eptr++;
+            }
+            str = eptr;
+
+            if (e_sign > 0)
+            {
+                while (e_val--)
+                    ret *= 10.0f;
+            }
+            else
+            {
+                while (e_val--)
+                    ret /= 10.0f;
+            }
+        }
     }
+
+    if (pend)
+        *pend = (char *)str;
+    return minus ? -ret : ret;
 }
 
 #ifndef WITHOUT_FLOAT64
